@@ -253,6 +253,19 @@ def gen_cases(ctx):
                         specs[name] = {'form': 'dict', 'items': {sx: F(val + k) for k, sx in enumerate(sites)}}
                 cases.append({'model': m, 'symmetry': MODELS[m]['syms'][gi % len(MODELS[m]['syms'])], 'label_kind': 'int', 'edges': list(g), 'specs': specs,
                               'forms': [specs[n]['form'] for n, _ in MODELS[m]['coefs']], 'numeric': numeric, 'force_dense': True})
+    # a hopping (or interaction) that is exactly zero on one bond: the bond still carries its shares of the on-site terms
+    for m in MODELS:
+        for gi, g in enumerate(([(0, 1), (1, 2), (2, 3), (3, 0)], [(0, 1), (0, 2), (0, 3), (1, 2)])):
+            for form in ('dict_same', 'callable'):
+                c = make_case(m, MODELS[m]['syms'][gi % len(MODELS[m]['syms'])], 'int', list(g), [form if ar == 2 else 'scalar' for _, ar in MODELS[m]['coefs']])
+                for (name, ar) in MODELS[m]['coefs']:
+                    if ar == 2:
+                        e0 = g[(gi + 1) % len(g)]
+                        for key in (e0, (e0[1], e0[0])):
+                            if key in c['specs'][name]['items']:
+                                c['specs'][name]['items'][key] = F(0)
+                c['force_dense'] = True
+                cases.append(c)
     # calls that must raise: a bond / a site missing from a coefficient dict
     for m in MODELS:
         for kind in ('int', 'str_multi'):
